@@ -618,6 +618,29 @@ func (s *store) UpdateEnrichments(ctx context.Context, kind string, fp driver.Fi
 }
 
 func (s *store) RecordUpdaterStatus(ctx context.Context, name string, _ time.Time, fp driver.Fingerprint, uerr error) error {
+	err := s.recordStatus(name, fp, uerr)
+	// the last thing driveUpdater does: let two workers leave it at the same moment
+	s.w.rendezvous()
+	return err
+}
+
+// rendezvous pairs two goroutines (or gives up after a moment): both go on at
+// the same instant. Used at the end of driveUpdater, where the workers of a
+// run hand their results back to it.
+func (w *world) rendezvous() {
+	if !w.sc.meet {
+		return
+	}
+	t := time.NewTimer(150 * time.Microsecond)
+	defer t.Stop()
+	select {
+	case w.meet <- struct{}{}:
+	case <-w.meet:
+	case <-t.C:
+	}
+}
+
+func (s *store) recordStatus(name string, fp driver.Fingerprint, uerr error) error {
 	w := s.w
 	w.preStore()
 	w.mu.Lock()
